@@ -107,7 +107,8 @@ def check_call(i, d, exp, call):
 def run_case(host, defs, procs1, maxprocs, calls_spec):
     mod, path, marks = host
     base = path.rsplit('/', 1)[-1]
-    plugins = [R.role_plugin('mp%d' % (p + 1), {'metric'}) for p in range(maxprocs)]
+    # (half of the cases: processors that are falsy objects - an empty series registry with __len__ - are processors)
+    plugins = [R.role_plugin('mp%d' % (p + 1), {'metric'}, falsy=(len(defs) % 2 == 0)) for p in range(maxprocs)]
     rg = R.Rig(plugins=plugins[:procs1])
     problems = []
     try:
